@@ -191,7 +191,9 @@ def notIndexedPhase : PhaseInfo :=
 
 /-- Phase-list part of `CrystalMap.__init__`. `none`: more phase ids in the data than phases in the list
 (the constructor then invents default phases with fresh colours — outside this model). -/
-def reconcile (ids : List Int) (pl : List PhaseInfo) : Option (List PhaseInfo) :=
+def reconcile (ids : List Int) (pl0 : List PhaseInfo) : Option (List PhaseInfo) :=
+  -- `if -1 in phase_list.ids: del phase_list[-1]`: "not_indexed" is (re-)created below from the data
+  let pl := pl0.filter (·.id != -1)
   let u0 := uniqSorted ids
   let inc := u0.head? == some (-1)
   let u := if inc then u0.tail else u0
